@@ -45,6 +45,7 @@ structure RS where
   headerVisible : Bool := true
   prompt : Str
   hscroll : Bool
+  xoffset : Nat := 0   -- horizontal scroll offset of the query (Terminal.xoffset)
 
 def isSub (p t : Str) : Bool := (List.range (t.length + 1)).any fun i => (t.drop i).take p.length == p
 
@@ -103,7 +104,7 @@ def run (ctx : Algo.Ctx) (op : String) (args impl : List String) : Outcome :=
               | .ok (some m) => (((m.pos.getD []).map (· + 1)).foldl max 0, true)
               | _ => (0, true)
           some { text, maxe, hasPos, current := (off + k : Int) == s.cy, selected := s.selected.contains i }
-      { input := s.input, found := s.results.length, total := su.ls.length, nsel := s.selected.length, rows }
+      { input := (promptScroll ro s.input s.cx r.xoffset).2, found := s.results.length, total := su.ls.length, nsel := s.selected.length, rows }
     let init : RS := { ts := su.init, header0, headerItems, prompt := ro0.prompt, hscroll := ro0.hscroll }
     let init := { init with ts := constrain (topOf init) { init.ts with } }
     let stepList := if steps == "_" then [] else steps.splitOn ";"
@@ -121,7 +122,8 @@ def run (ctx : Algo.Ctx) (op : String) (args impl : List String) : Outcome :=
         | .clearScreen => r
         | .term as => { r with ts := step (topOf r) r.ts (as.filterMap id) }
       -- geometry may have changed: the list is constrained again before it is drawn
-      { r' with ts := constrain (topOf r') r'.ts }
+      let r' := { r' with ts := constrain (topOf r') r'.ts }
+      { r' with xoffset := (promptScroll (roOf r') r'.ts.input r'.ts.cx r'.xoffset).1 }
     let states := (acts.foldl (fun (acc : RS × List RS) a => let r := stepRS acc.1 a; (r, acc.2 ++ [r])) (init, [init])).2
     let live := states.takeWhile (·.ts.outcome.isNone)
     -- a query wider than its room is scrolled horizontally: outside the model, the prompt row is
@@ -131,7 +133,6 @@ def run (ctx : Algo.Ctx) (op : String) (args impl : List String) : Outcome :=
     let entries := live.map fun r =>
       let ro := roOf r
       let scr := fullRender ro (viewOf r)
-      let scr := if queryFits ro r.ts.input ∧ ro.prompt.length + r.ts.input.length + 2 < ro.W then scr else maskRow scr (promptY ro)
       s!"{showObs r.ts}@{showScreen scr}"
     let model := if entries.isEmpty then "_" else "/".intercalate entries
     let implAll := match impl with | [x] => if x == "_" then [] else x.splitOn "/" | _ => []
@@ -143,7 +144,7 @@ def run (ctx : Algo.Ctx) (op : String) (args impl : List String) : Outcome :=
     -- correspondence: same number of entries, same observations, same screens
     let maskImpl (ie : String) (r : RS) : String :=
       let ro := roOf r
-      if queryFits ro r.ts.input ∧ ro.prompt.length + r.ts.input.length + 2 < ro.W then ie else
+      if true then ie else
       match ie.splitOn "@" with
       | [obs, scr] => s!"{obs}@{showScreen (maskRow (parseScreen scr) (promptY ro))}"
       | _ => ie
@@ -175,7 +176,7 @@ def run (ctx : Algo.Ctx) (op : String) (args impl : List String) : Outcome :=
           let infoY := match ro.layout with | .reverse => 1 | _ => H - 2
           let promptTxt := rowAt promptY
           let wantPrompt := ro.prompt ++ query
-          if queryFits ro query ∧ promptTxt.take wantPrompt.length != wantPrompt then
+          if queryFits ro query ∧ r.xoffset == 0 ∧ ro.prompt.length + query.length + 2 < cols ∧ promptTxt.take wantPrompt.length != wantPrompt then
             some s!"[C15] the prompt line shows {showRow promptTxt}, the query is {q}"
           else
           let counter := infoText ro found (max found su.ls.length) selected.length
